@@ -152,8 +152,14 @@ def run_check(mod, tier, seed, replay=None):
                           log=os.path.join(work, "regress%d.log" % i), kind="regress", file=f))
     for i, sh in enumerate(plan["shards"]):
         part = os.path.join(work, "part%d.json" % i)
-        cmd = [build.binpath(*sh["bin"]), "--prop", pid, "--seed", str(seed), "--shard", str(sh.get("shard", i)),
-               "--tier", tier, "--part", part, "--found-dir", FOUND] + [str(x) for x in sh.get("args", [])]
+        if sh.get("cmd"):
+            # arbitrary command shard; placeholders: {part} {found} {seed} {shard} {tier} {work} {verif} {build}
+            sub = dict(part=part, found=FOUND, seed=str(seed), shard=str(sh.get("shard", i)), tier=tier,
+                       work=work, verif=VERIF, build=build.BUILD, prop=pid)
+            cmd = [str(x).format(**sub) for x in sh["cmd"]]
+        else:
+            cmd = [build.binpath(*sh["bin"]), "--prop", pid, "--seed", str(seed), "--shard", str(sh.get("shard", i)),
+                   "--tier", tier, "--part", part, "--found-dir", FOUND] + [str(x) for x in sh.get("args", [])]
         env = dict(plan.get("env") or {}); env.update(sh.get("env") or {})
         specs.append(dict(cmd=cmd, env=env, timeout=sh.get("timeout", plan.get("timeout", 3600)), part=part,
                           log=os.path.join(work, "shard%d.log" % i), kind="shard", weight=sh.get("cpus", 1)))
